@@ -22,6 +22,14 @@ CLAIMED = {
          "The CRC step is GF(2)-affine, so one abstract interpretation yields its exact 16x24 matrix; equality with the CRC-16/ARC reference matrix settles all 65536x256 transitions, the composed matrix settles the residue rule for every state, and the fold/one-register shapes settle every byte string and every write partition.",
          "Trusted: the affine transfer functions (^, & const, shifts by const, zero-extension, linear table load) in checker/c14.go; Go semantics of range over a slice. Sum(in) (big-endian append from hash.Hash) is outside the statement. Any operator outside the domain makes the obligation undecided (fail closed).",
          "DESIGN.md 4 C14"),
+ "C08": ("other", "global-write effect analysis over the VTA call graph + type-based who-may-write rule for profile rows + map-order lint + ambient-input ban",
+         "Decides the structural clause 'no history channel': no package-level variable is written on any path from the entry points (known finding: the three component accumulators), no iteration-order dependent output, no ambient input. This is a necessary condition of purity that holds on every path or not at all; the behavioural equality with a fresh process is its consequence under the stated stdlib assumption and is not observed.",
+         "Trusted: VTA-over-CHA call graph over-approximates dispatch; read-only summaries of listed external callees; stdlib purity for the calls made. Not decided: deep equality of results as an observation.",
+         "DESIGN.md 4 C08"),
+ "C09": ("other", "shared-location effect analysis (same engine as C08) + concurrency-construct ban + store-root ownership classification",
+         "Decides absence of shared mutable locations between calls on independent arguments: every store in reachable library code is rooted at a parameter/receiver, captured variable or fresh allocation, or is a reported package-variable write (known finding: accumulators). Sufficient for race freedom on independent inputs; schedules are not explored.",
+         "Trusted: call graph; external read-only summaries; stdlib functions called on per-call values share no hidden mutable state. Not decided: observation under the race detector, equality with sequential results.",
+         "DESIGN.md 4 C09"),
 }
 
 NOT_APPLICABLE = {
